@@ -22,7 +22,7 @@ use xor_name::XorName;
 pub struct C05;
 
 #[derive(Clone, Copy, Debug, PartialEq, Eq)]
-enum Kind {
+pub(crate) enum Kind {
     Chunk,
     Pad,
     Txs,
@@ -42,7 +42,7 @@ enum Ev {
     Cancel(usize),
 }
 
-fn quorum_value(q: &Quorum) -> usize {
+pub(crate) fn quorum_value(q: &Quorum) -> usize {
     match q {
         Quorum::One => 1,
         Quorum::Majority => 3,
@@ -51,16 +51,16 @@ fn quorum_value(q: &Quorum) -> usize {
     }
 }
 
-struct Versions {
-    kind: Kind,
-    key: RecordKey,
-    bytes: Vec<Vec<u8>>,
+pub(crate) struct Versions {
+    pub kind: Kind,
+    pub key: RecordKey,
+    pub bytes: Vec<Vec<u8>>,
     /// scratchpads: (counter, valid)
-    pads: Vec<(u64, bool)>,
-    regs: Vec<Option<SignedRegister>>, // None = does not verify
+    pub pads: Vec<(u64, bool)>,
+    pub regs: Vec<Option<SignedRegister>>, // None = does not verify
 }
 
-fn make_versions(cx: &mut Cx, kind: Kind, n: usize) -> Versions {
+pub(crate) fn make_versions(cx: &mut Cx, kind: Kind, n: usize) -> Versions {
     let owner = gen::bls_sk(&mut cx.rng);
     match kind {
         Kind::Chunk => {
@@ -148,7 +148,7 @@ fn make_versions(cx: &mut Cx, kind: Kind, n: usize) -> Versions {
 }
 
 /// is `got` the deterministic merge of the versions in `seen` (by the statement)?
-fn is_merge(v: &Versions, seen: &BTreeSet<usize>, got: &[u8]) -> bool {
+pub(crate) fn is_merge(v: &Versions, seen: &BTreeSet<usize>, got: &[u8]) -> bool {
     let rec = |b: &[u8]| gen::record(v.key.clone(), b.to_vec());
     match v.kind {
         Kind::Chunk => false,
@@ -202,9 +202,15 @@ impl Check for C05 {
         tier.pick(std::time::Duration::from_secs(150), std::time::Duration::from_secs(1500))
     }
     fn required_counters(&self, _tier: Tier) -> Vec<&'static str> {
-        vec!["outcome:value", "outcome:split", "outcome:merged", "terminal:Timeout", "terminal:Finished", "callers:cancelled", "duplicate-responder-sequences", "retry:reads-below-quorum", "retry:reads-reaching-quorum"]
+        vec!["outcome:value", "outcome:split", "outcome:merged", "terminal:Timeout", "terminal:Finished", "callers:cancelled", "duplicate-responder-sequences", "retry:reads-below-quorum", "retry:reads-reaching-quorum", "realnet:keys-read", "realnet:read-outcome:value"]
+    }
+    fn lane_cases(&self, tier: Tier) -> u64 {
+        tier.pick(8, 64)
     }
     fn run_case(&self, cx: &mut Cx) {
+        if cx.index >= LANE_BASE {
+            return crate::realcases::c05_case(cx);
+        }
         // every 10th case: a read with a retry strategy, the same few holders answering every attempt
         if cx.index % 10 == 9 {
             return retry_case(cx);
